@@ -198,12 +198,16 @@ def linkOfSexp : Sexp → Option (String × List (String × String))
   | .list (.atom src :: ts) => do some (src, ← ts.mapM targetOfSexp)
   | _ => none
 
+/-- `Routine.from_qref`: links listed with the same source are merged (targets concatenated, position of the first) -/
+def mergeLinks (l : List (String × List (String × String))) : Dict (List (String × String)) :=
+  l.foldl (fun acc kv => acc.set kv.1 (((acc.get? kv.1).getD []) ++ kv.2)) []
+
 mutual
 def Routine.ofSexp : Sexp → Option Routine
   | .list [.atom "routine", .atom name, ty, ips, lvs, lks, ps, rs, cs, rep, .list ch] => do
       let children ← Routine.ofSexpList ch
       some { name := name, type := ← atomOpt ty, inputParams := ← listOfSexp atomStr ips,
-             localVars := ← listOfSexp localOfSexp lvs, linked := ← listOfSexp linkOfSexp lks,
+             localVars := ← listOfSexp localOfSexp lvs, linked := mergeLinks (← listOfSexp linkOfSexp lks),
              ports := ← listOfSexp Port.ofSexp ps, resources := ← listOfSexp Resource.ofSexp rs,
              conns := ← listOfSexp connOfSexp cs, rep := ← optRepOfSexp rep, constraints := [],
              children := children, childrenOrder := children.map (·.name) }
